@@ -786,6 +786,7 @@ def run(run):
                 _shards(run, tfiles, 48, loader="tempo", styles=few_styles, ios=ios_all, lite=not thorough))
 
     # (4) ragged time series
+    header_shards = []
     for dtype in ("float", "int"):
         if dtype == "float":
             tvals = ["1.5", "-2.25", "5e-324", "1E-3"] + (["-0.0", ".5"] if thorough else [])
@@ -811,9 +812,11 @@ def run(run):
         # header=True: first physical line is a header (textual, or numeric-looking)
         hfiles = two_row_files(sub_alphabet(rrows, 15 if thorough else 8), all_pairs=thorough)
         for htext in (["time", "f0"], ["0", "1", "2"]):
-            run.explore("files:ragged,%s,header=%s" % (dtype, htext[0]), mod, "shard_ragged_header",
-                        [dict(files=ch, phase=phase, tier=tier, dtype=dtype, htext=htext)
-                         for ch in core.chunks(hfiles, 16)])
+            header_shards += [dict(files=ch, phase=phase, tier=tier, dtype=dtype, htext=htext)
+                              for ch in core.chunks(hfiles, 8)]
+
+    run.explore("files:ragged,header=True{float,int}x{textual,numeric header}", mod, "shard_ragged_header",
+                header_shards)
 
     # (5) conventions that parse: returned with a warning
     ev = ["0.5", "1.25", "2.75", "30000.5", "10000000000.0", "-1.5", "30000.0"]
@@ -826,10 +829,13 @@ def run(run):
     conv["intervals"] = list(sequences(iv, 2, 1))
     conv["labeled_intervals"] = [tuple(r + ("a b",) for r in s) for s in sequences(iv, 2, 1)]
     conv["valued_intervals"] = [tuple(r + ("-60.5",) for r in s) for s in sequences(iv, 2, 1)]
+    conv_shards = []
     for loader, files in conv.items():
-        run.explore("conventions:" + loader, mod, "shard_files",
-                    _shards(run, files, 16, loader=loader, styles=few_styles if thorough else ["ws1", "comma"],
-                            ios=ios_all if thorough else [["sio", "path"]] * 4, lite=True))
+        conv_shards += _shards(run, files, 16 if thorough else 8, loader=loader,
+                               styles=few_styles if thorough else ["ws1", "comma"],
+                               ios=ios_all if thorough else [["sio", "path"]] * 4, lite=True)
+    run.explore("conventions:events,labeled_events,intervals,labeled_intervals,valued_intervals", mod, "shard_files",
+                conv_shards)
 
     # (6) single faults
     fbase = {
@@ -845,23 +851,23 @@ def run(run):
     depth = 3 if thorough else 2
     fstyles = all_styles if thorough else few_styles
     fios = ["sio", "path", "fh"] if thorough else ["sio", "path"]
+    fshards = []
     for loader, base in fbase.items():
         d = 1 if loader in ("key", "tempo") else depth
         files = list(sequences(base, d, 1))
-        run.explore("faults:" + loader, mod, "shard_faults",
-                    _shards(run, files, 16, loader=loader, styles=all_styles if d == 1 else fstyles,
-                            ios=["sio", "path", "fh"] if d == 1 else fios))
+        fshards += _shards(run, files, 16 if thorough else 6, loader=loader, styles=all_styles if d == 1 else fstyles,
+                           ios=["sio", "path", "fh"] if d == 1 else fios)
+    run.explore("faults:" + ",".join(fbase), mod, "shard_faults", fshards)
+    fshards = []
     for dtype, base in (("float", [("0.5", "1.25"), ("1.25",), ("2.75", "60.5", "61.5")]),
                         ("int", [("0.5", "60"), ("1.25",), ("2.75", "61", "62")])):
         files = list(sequences(base, depth, 1))
-        run.explore("faults:ragged,%s" % dtype, mod, "shard_faults",
-                    _shards(run, files, 16, loader="ragged_time_series", styles=fstyles, ios=fios,
-                            extra={"dtype": dtype}))
-
+        fshards += _shards(run, files, 16 if thorough else 8, loader="ragged_time_series", styles=fstyles, ios=fios,
+                           extra={"dtype": dtype})
         for htext in (["time", "f0"], ["0", "1", "2"]):
-            run.explore("faults:ragged,%s,header=%s" % (dtype, htext[0]), mod, "shard_faults",
-                        _shards(run, list(sequences(base, 2 if thorough else 1, 1)), 16, loader="ragged_time_series",
-                                styles=few_styles, ios=["sio", "path"], extra={"dtype": dtype}, htext=htext))
+            fshards += _shards(run, list(sequences(base, 2 if thorough else 1, 1)), 4, loader="ragged_time_series",
+                               styles=few_styles, ios=["sio", "path"], extra={"dtype": dtype}, htext=htext)
+    run.explore("faults:ragged{float,int}x{no header,textual header,numeric header}", mod, "shard_faults", fshards)
 
     # (7) pattern files
     da = ("D", repr(7.0 + phase), "45.00000")
@@ -933,7 +939,7 @@ def shard_ragged_header(arg):
     phase, tier, dtype = arg["phase"], arg["tier"], arg["dtype"]
     try:
         for rows in arg["files"]:
-            for style in ("ws1", "wst", "comma", "wscomma"):
+            for style in (("ws1", "wst", "comma", "wscomma") if tier == "thorough" else ("ws1", "comma")):
                 sep = M.STYLES[style][1]
                 header = sep.join(arg["htext"])
                 for ckw, markers, clines in comment_configs(len(rows), phase, tier, lite=True):
